@@ -16,7 +16,7 @@ fn main() {
         return;
     }
     let id = args[1].clone();
-    let mut cfg = Cfg { tier_thorough: false, seed: 0, threads: std::thread::available_parallelism().map(|n| n.get()).unwrap_or(4), only: None, scale_div: 1, mode: "debug".into(), shard: None };
+    let mut cfg = Cfg { tier_thorough: false, seed: 0, threads: std::thread::available_parallelism().map(|n| n.get()).unwrap_or(4), only: None, scale_div: 1, mode: "debug".into(), shard: None, corpus: None };
     let mut out: Option<String> = None;
     let mut i = 2;
     while i < args.len() {
@@ -28,6 +28,7 @@ fn main() {
             "--out" => out = v.clone(),
             "--scale-div" => cfg.scale_div = v.as_deref().and_then(|s| s.parse().ok()).unwrap_or(1),
             "--mode" => cfg.mode = v.clone().unwrap_or_default(),
+            "--corpus" => cfg.corpus = v.clone(),
             "--shard" => {
                 let s = v.clone().unwrap_or_default();
                 let (a, b) = s.split_once('/').unwrap_or_else(|| usage());
